@@ -30,7 +30,10 @@ W_PUNCT = [",", ".", "?", "!", ";", ":", "--", "-", "/", "..."]
 W_PAIR = ["\"", "'", "''", "`", "``"]
 W_HASH = ["#5021", "#12", "#", "#abc", "#1234x", "##", "#500th"]
 W_USPACE = ["10\u00a0000", "a\u2009b", "\u00a0", "x\u3000y"]      # not whitespace for the formats
-W_LEN = ["abcdefg", "abcdefgh", "abcdefghijklmno", "abcdefghijklmnop", "abcdefghijklmnopq"]
+W_LEN = ["abcdefg", "abcdefgh", "abcdefghijklmno", "abcdefghijklmnop", "abcdefghijklmnopq",
+         "abcdefghijklmnopqrstuvw", "abcdefghijklmnopqrstuvwx", "abcdefghijklmnopqrstuvwxy",
+         "http://example.org/a/very/long/token/of/forty-eight"]
+MORPH_LONG = ["Nom.Sg.Masc.Def.", "3.Sg.Pres.Ind.Akt.Refl", "abcdefghijklmnopqrstuvwx"]
 P_PUNCT = ["$,", "$.", ":", "PUNCT"]
 
 
@@ -128,6 +131,8 @@ def swarm_knobs(rng, tier="quick", allow=("ascii", "latin1", "wide", "xml", "len
     if "xml" in allow and rng.random() < 0.1:
         k["edges"] = k["edges"] + [rng.choice(EDGES_SPECIAL)]
     k["morph"] = MORPH[:rng.choice([1, 2, 4])]
+    if "len" in allow and rng.random() < 0.15:
+        k["morph"] = k["morph"] + [rng.choice(MORPH_LONG)]
     classes = ["ascii"]
     for c in allow:
         if c != "ascii" and rng.random() < 0.3:
